@@ -308,3 +308,19 @@ def r6(ctx):
                             'symbol yields entries that are not the concatenation of two tokens)' % [repr(x)[:140] for x in segs or ()])
     if n == 0:
         raise AnchorMissing('construction of the (symbols, count) training vocabulary')
+
+
+@rule('C19', 'R-C19-7', 'MUST-PASS (the table is always written)',
+      'every successful return of train_bpe passes merge_ops.save(out_file): a request that yields zero merges still writes an '
+      '(empty) table instead of leaving a stale or missing file behind')
+def r7(ctx):
+    b = ctx.body(T + 'train_bpe')
+    sv = [t for t in b.calls(r'::save$') if t.args and 'HashMap<std::vec::Vec<u8>, u32>' in b.local_ty(t.args[0].place.local if t.args[0].place is not None else 0)]
+    if len(sv) != 1:
+        raise AnchorMissing('merge_ops.save(..) in train_bpe (found %d)' % len(sv))
+    for v, blk in ret_values(b):
+        if v[0] == 'agg' and v[2].endswith('Result::Ok'):
+            ok = cfg.must_pass(b, 0, blk, via_blocks=[sv[0].bb])
+            ctx.require(ok, b, 'save-before-ok', 'Ok(()) at line %d is returned only after the table was saved' % b.blocks[blk].term.span['line'],
+                        'train_bpe returns Ok(()) at line %d without writing the merge table: the output file is missing or still holds the table of an earlier run' % b.blocks[blk].term.span['line'],
+                        b.blocks[blk].term.span)
